@@ -16,6 +16,11 @@ WP = 'not isnull(self._worker) and allocated(self._worker) and self._worker.pid 
 
 
 def declare(spec):
+    spec.assumptions['A-POLLREAP'] = (
+        'Popen.poll() (behind Process.poll / is_alive / stop) also collects the zombie, i.e. the pid leaves the kernel child '
+        'table; the model keeps it in K_child until a waitpid. Watcher.reap_process is verified for both answers of '
+        'waitpid (a wait status, or ECHILD with the exit code taken from Popen.returncode), so every real behaviour is '
+        'covered; clauses of the form "pid in K_child" after an is_alive() are statements about the model table')
     me = "ufn('descendant', BOOL, self.pid, result[i])"
     # ---- psutil handle (T-PSUTIL), over the kernel ghost K_alive
     spec.add(Contract('$PsProc.poll', params={'self': Ref('PsProc')}, ret=VAL, trusted=True, modifies=['K_alive'],
